@@ -347,11 +347,14 @@ class Ctx:
         os.makedirs(REPLAY, exist_ok=True)
 
     # -- stage 1 ------------------------------------------------------------
-    def obligations_stage(self, props_rel, extra_targets=()):
+    def obligations_stage(self, props_rel, extra_targets=(), gate_dirs=()):
         """Build the property's theories, then recompile its Props file to
         collect the Print Assumptions output.  Returns True iff everything is
-        discharged and closed under allowed axioms."""
-        bad = grep_gate(all_v_files())
+        discharged and closed under allowed axioms.  The vernacular gate scans
+        coq/lib, the property's own directory and gate_dirs (other property
+        directories this one imports); setup.sh scans everything."""
+        dirs = {'lib', os.path.dirname(props_rel)} | set(gate_dirs) | {os.path.dirname(t) for t in extra_targets}
+        bad = grep_gate([p for p in all_v_files() if os.path.relpath(p, COQ).split(os.sep)[0] in dirs])
         self.obligations += 1
         if bad:
             self.broken.append('grep-gate: ' + '; '.join(bad[:5]))
